@@ -77,6 +77,9 @@ def pairs_for(key, defn):
         last = re.split(r'[>+^(]', bare(defn))[-1]
         if last.strip() and not re.fullmatch(r'\s*', last):
             yield ('child', key + '>x-b', defn + '>x-b')
+            if single_top(defn) and not defn.endswith('/'):
+                # a repeater on the alias is also what the lorem generator reads (only the first copy opens with "Lorem ipsum")
+                yield ('repeat-lorem', key + '*3>lorem4', defn + '*3>lorem4')
             # the alias again among its own children: resolved after the outer alias left the cycle guard
             yield ('child-self', key + '>' + key, defn + '>' + defn)
             yield ('child-self-deep', key + '>x-m>' + key + '+x-n', defn + '>x-m>(' + defn + ')+x-n')
@@ -97,6 +100,10 @@ def loose_stream(out):
         else:
             res.append(t)
     return repr(res)
+
+
+def lorem_shape(out):
+    return re.sub(r'(?<=>)[^<>]*[A-Za-z][^<>]*(?=<)', lambda m: 'LOREM-OPENING' if re.sub(r'[^a-z ]', '', m.group(0).lower()).split()[:2] == ['lorem', 'ipsum'] else 'words', out)
 
 
 class Mon:
@@ -123,6 +130,9 @@ class Mon:
                 a, d = loose_stream(a), loose_stream(d)
             except outparse.OutParseError:
                 pass        # doctype / processing-instruction text: fall back to the exact comparison
+        if label.endswith('repeat-lorem') and ra[0] == 'ok':
+            # lorem words are random: compare the markup and, per text, whether it opens with the fixed first words
+            a, d = lorem_shape(a), lorem_shape(d)
         if a != d:
             ctx.violation('alias-differs-from-definition', case, {'alias_output': a[:300], 'definition_output': d[:300]})
             return
@@ -277,6 +287,8 @@ def run_shard(desc, ctx):
                         table[name] = v
             for key, defn in sorted(table.items()):
                 for label, a, d in pairs_for(key, defn):
+                    if label == 'repeat-lorem' and syntax in ('pug', 'haml', 'slim'):
+                        continue        # the lorem reader of the harness reads angle-bracket output
                     mon.pair(label, a, d, {'syntax': syntax}, 'builtin-pair', 'oracle:alias-equals-definition')
                     if label in ('attrs', 'inside', 'plain') and syntax in ('html', 'xsl'):
                         mon.pair(label + ':reverse', a, d, {'syntax': syntax, 'options': {'output.format': False, 'output.reverseAttributes': True}},
@@ -297,8 +309,9 @@ def run_shard(desc, ctx):
                 for d in rng.sample(range(nlinks), min(3, nlinks)):
                     key = 'w%d' % d
                     for label, a, dd in pairs_for(key, tbl[key]):
-                        if label in ('plain', 'inside', 'attrs', 'child', 'repeat'):
-                            mon.pair('chain:' + label, a, dd, {'syntax': rng.choice(['html', 'pug']), 'snippets': tbl}, 'user-chain-pair', 'oracle:alias-equals-definition')
+                        if label in ('plain', 'inside', 'attrs', 'child', 'repeat', 'repeat-lorem'):
+                            mon.pair('chain:' + label, a, dd, {'syntax': 'html' if label == 'repeat-lorem' else rng.choice(['html', 'pug']), 'snippets': tbl},
+                                     'user-chain-pair', 'oracle:alias-equals-definition')
         elif desc['kind'] == 'multi':
             for syntax in SYNTAXES:
                 for a, d in MULTI_PAIRS:
